@@ -20,6 +20,8 @@ WITNESSES = ["xé", "add r0 .fill x1", "add .break", "br #-2", "jsr #-1025", "ad
              ".blkw #-1", ".blkw #-65535\nhalt", ".stringz \"\U0001F600\"", ".fill \"s\"", ".blkw r0", ".stringz #1",
              "ldr r0 r1", "ldr r0 r1 lbl", "call", "push", "rets r0", "jsrr #1", "jmp lbl", "not r0", "st r0", "\t,:,;\n",
              ", : , :", "\r\n\r\n", "\x0c\x0b", "halt;", ";", "; é", "lbl:", "lbl: halt", ":lbl halt", "r8 halt", "r77 halt",
+             "add r0, r0, 4294967295", "add r0, r0, 4294967296", "add r0 r0 99999999999999999999", "lbl 123456789012345678901234567890", "ldr r0 r1 18446744073709551616",
+             "0 halt", "00000000000000000000000000000000000000001 halt", "str r1 r2 340282366920938463463374607431768211456", "trap 4294967296", ".orig 4294967296", ".fill 99999999999", ".blkw 18446744073709551615",
              "R0 halt", "x3000 halt", "#1 halt", "\"s\" halt", ".break", ".break .break halt", "l .break", "l .break halt br l"]
 
 
